@@ -23,6 +23,12 @@ Definition label_ok (s : rstate) (l : label) : Prop :=
   | _ => True
   end.
 
+(* Reader.offset is the position after what was returned since the last (re)start *)
+Definition pos_after (s0 : Z) (ds : list msg) : Z := fold_left (fun _ g => g_off g + 1) ds s0.
+
+Lemma pos_after_snoc s0 ds g : pos_after s0 (ds ++ [g]) = g_off g + 1.
+Proof. unfold pos_after. rewrite fold_left_app. reflexivity. Qed.
+
 Definition rinv (s0 : Z) (s : rstate) : Prop :=
   0 <= r_version s
   /\ Forall (fun it => fst it <= r_version s) (r_queue s)
@@ -30,7 +36,12 @@ Definition rinv (s0 : Z) (s : rstate) : Prop :=
   /\ (r_version s = 0 -> r_delivered s = [] /\ r_queue s = [])
   /\ (r_version s <> 0 ->
       exists g, find_gen (r_version s) (r_gens s) = Some g
-                /\ gen_inv log s0 g (r_delivered s ++ cur_msgs (r_version s) (r_queue s))).
+                /\ gen_inv log s0 g (r_delivered s ++ cur_msgs (r_version s) (r_queue s)))
+  (* the snapshot of a call in progress is the current version: the lazy start comes first, and
+     SetOffset does not run during a call *)
+  /\ (forall snap, r_call s = Some snap -> snap = r_version s /\ r_version s <> 0)
+  (* Reader.offset: the start position, then one past the last message returned *)
+  /\ (r_version s <> 0 -> r_offset s = pos_after s0 (r_delivered s)).
 
 Lemma cur_msgs_old v q : Forall (fun it => fst it <= v - 1) q -> cur_msgs v q = [].
 Proof.
@@ -88,24 +99,31 @@ Qed.
 
 Lemma rinv_init s0 : rinv s0 r_init.
 Proof.
-  unfold rinv, r_init. cbn [r_version r_queue r_gens r_delivered].
+  unfold rinv, r_init. cbn [r_version r_queue r_gens r_delivered r_call r_offset].
   split; [lia|]. split; [constructor|]. split; [constructor|]. split; [split; reflexivity|].
-  intros H. exfalso. apply H. reflexivity.
+  split; [intros H; exfalso; apply H; reflexivity|]. split; [intros snap H; discriminate|].
+  intros H; exfalso; apply H; reflexivity.
 Qed.
 
-Lemma rinv_start s0 s : rinv s0 s -> rinv (r_offset s) (r_start s).
+(* Reader.start outside a call, at position o *)
+Definition at_offset (s : rstate) (o : Z) : rstate :=
+  mkR (r_version s) o (r_lag s) (r_call s) (r_queue s) (r_gens s) (r_delivered s).
+
+Lemma rinv_start s0 s o : rinv s0 s -> r_call s = None -> rinv o (r_start (at_offset s o)).
 Proof.
-  intros (Hv & HQ & HG & HD & HC). unfold rinv, r_start. cbn [r_version r_queue r_gens r_delivered].
+  intros (Hv & HQ & HG & HD & HC & HK & HO) Hcall. unfold rinv, r_start, at_offset. cbn [r_version r_queue r_gens r_delivered r_call r_offset].
   split; [lia|]. split.
   { eapply Forall_impl; [|exact HQ]. cbn. intros. lia. }
   split.
   { constructor; [cbn; lia|]. eapply Forall_impl; [|exact HG]. cbn. intros. lia. }
-  split; [intros; lia|]. intros _.
-  exists (gen_start (r_offset s)). split.
-  - cbn [find_gen]. rewrite Z.eqb_refl. reflexivity.
-  - cbn [app]. rewrite cur_msgs_old.
-    + apply (gen_start_inv run).
-    + eapply Forall_impl; [|exact HQ]. cbn. intros. lia.
+  split; [intros; lia|]. split.
+  - intros _.
+    exists (gen_start o). split.
+    + cbn [find_gen]. rewrite Z.eqb_refl. reflexivity.
+    + cbn [app]. rewrite cur_msgs_old.
+      * apply (gen_start_inv run).
+      * eapply Forall_impl; [|exact HQ]. cbn. intros. lia.
+  - split; [rewrite Hcall; intros snap H; discriminate|]. intros _. reflexivity.
 Qed.
 
 (* ghost: the offset the current generation was started at *)
@@ -116,40 +134,66 @@ Definition next_start (s : rstate) (s0 : Z) (l : label) : Z :=
   | _ => s0
   end.
 
+Lemma rinv_set_call s0 s c :
+  rinv s0 s -> (forall snap, c = Some snap -> snap = r_version s /\ r_version s <> 0) -> rinv s0 (set_call s c).
+Proof.
+  intros (Hv & HQ & HG & HD & HC & HK & HO) Hc. unfold rinv, set_call. cbn [r_version r_queue r_gens r_delivered r_call r_offset].
+  split; [exact Hv|]. split; [exact HQ|]. split; [exact HG|]. split; [exact HD|]. split; [exact HC|]. split; [exact Hc|exact HO].
+Qed.
+
 Theorem r_step_inv s0 s l s' ret :
   rinv s0 s -> label_ok s l -> r_step run cfg s l = RState s' ret -> rinv (next_start s s0 l) s'.
 Proof.
-  intros Hinv Hlab Hstep. pose proof Hinv as (Hv & HQ & HG & HD & HC).
-  destruct l as [| |o|v ev k]; cbn [r_step next_start] in Hstep |- *.
+  intros Hinv Hlab Hstep. pose proof Hinv as (Hv & HQ & HG & HD & HC & HK & HO).
+  destruct l as [| | |o|v ev k]; cbn [r_step next_start] in Hstep |- *.
   - (* LBegin *)
-    destruct (r_version s =? 0); injection Hstep as <- <-; [apply (rinv_start s0)|]; exact Hinv.
+    destruct (r_version s =? 0) eqn:E0; injection Hstep as <- <-.
+    + (* the lazy start, then the snapshot *)
+      assert (Hcall : r_call s = None).
+      { destruct (r_call s) as [snap|] eqn:Ec; [|reflexivity]. destruct (HK snap eq_refl) as [_ Hn]. lia. }
+      apply rinv_set_call; [exact (rinv_start s0 s (r_offset s) Hinv Hcall)|].
+      intros snap H. injection H as <-. split; [reflexivity|]. unfold r_start. cbn [r_version]. lia.
+    + apply rinv_set_call; [exact Hinv|]. intros snap H. injection H as <-. split; [reflexivity|lia].
   - (* LTake *)
+    destruct (r_call s) as [snap|] eqn:Ec; [|discriminate].
+    destruct (HK snap eq_refl) as [Hsnap Hnz]. subst snap.
     destruct (r_queue s) as [|[v item] q] eqn:Eq; [discriminate|].
     apply Forall_cons_iff in HQ as [HQ1 HQ2]. cbn [fst] in HQ1.
     destruct (r_version s <=? v) eqn:Ev.
     + assert (v = r_version s) by lia. subst v.
-      destruct item as [g hwm|e]; injection Hstep as <- <-; unfold rinv;
-        cbn [r_version r_queue r_gens r_delivered]; (split; [exact Hv|]); (split; [exact HQ2|]);
-        (split; [exact HG|]).
-      * split; [intros H0; exfalso; destruct (HD H0) as [_ Hq0]; discriminate Hq0|].
-        intros Hn. destruct (HC Hn) as (g0 & Hf & Hg). exists g0. split; [exact Hf|].
-        cbn [cur_msgs flat_map] in Hg. unfold item_msgs at 1 in Hg. cbn [fst snd] in Hg.
-        rewrite Z.eqb_refl in Hg. rewrite <- app_assoc. exact Hg.
-      * split; [intros H0; exfalso; destruct (HD H0) as [_ Hq0]; discriminate Hq0|].
-        intros Hn. destruct (HC Hn) as (g0 & Hf & Hg). exists g0. split; [exact Hf|].
-        cbn [cur_msgs flat_map] in Hg. unfold item_msgs at 1 in Hg. cbn [fst snd] in Hg.
-        rewrite Z.eqb_refl in Hg. exact Hg.
-    + injection Hstep as <- <-. unfold rinv. cbn [r_version r_queue r_gens r_delivered].
+      destruct (HC Hnz) as (g0 & Hf & Hg).
+      cbn [cur_msgs flat_map] in Hg. unfold item_msgs at 1 in Hg. cbn [fst snd] in Hg. rewrite Z.eqb_refl in Hg.
+      destruct item as [g hwm|e].
+      * rewrite Z.eqb_refl in Hstep. injection Hstep as <- <-. unfold rinv.
+        cbn [r_version r_queue r_gens r_delivered r_call r_offset].
+        split; [exact Hv|]. split; [exact HQ2|]. split; [exact HG|].
+        split; [intros H0; exfalso; lia|]. split.
+        { intros _. exists g0. split; [exact Hf|]. rewrite <- app_assoc. exact Hg. }
+        split; [intros snap H; discriminate|]. intros _. symmetry. apply pos_after_snoc.
+      * injection Hstep as <- <-. unfold rinv. cbn [r_version r_queue r_gens r_delivered r_call r_offset].
+        split; [exact Hv|]. split; [exact HQ2|]. split; [exact HG|].
+        split; [intros H0; exfalso; lia|]. split.
+        { intros _. exists g0. split; [exact Hf|]. exact Hg. }
+        split; [intros snap H; discriminate|]. exact HO.
+    + injection Hstep as <- <-. unfold rinv. cbn [r_version r_queue r_gens r_delivered r_call r_offset].
       split; [exact Hv|]. split; [exact HQ2|]. split; [exact HG|].
-      split; [intros H0; exfalso; destruct (HD H0) as [_ Hq0]; discriminate Hq0|].
-      intros Hn. destruct (HC Hn) as (g0 & Hf & Hg). exists g0. split; [exact Hf|].
-      cbn [cur_msgs flat_map] in Hg. unfold item_msgs at 1 in Hg. cbn [fst] in Hg.
-      replace (v =? r_version s) with false in Hg by lia. exact Hg.
+      split; [intros H0; exfalso; lia|]. split.
+      { intros Hn. destruct (HC Hn) as (g0 & Hf & Hg). exists g0. split; [exact Hf|].
+        cbn [cur_msgs flat_map] in Hg. unfold item_msgs at 1 in Hg. cbn [fst] in Hg.
+        replace (v =? r_version s) with false in Hg by lia. exact Hg. }
+      split; [exact HK|exact HO].
+  - (* LAbort *)
+    destruct (r_call s) as [snap|]; [|discriminate]. injection Hstep as <- <-.
+    apply rinv_set_call; [exact Hinv|]. intros snap' H; discriminate.
   - (* LSetOffset *)
+    destruct (r_call s) as [snap|] eqn:Ec; [discriminate|].
     destruct (o =? r_offset s); [injection Hstep as <- <-; exact Hinv|].
-    assert (H1 : rinv s0 (mkR (r_version s) o (r_queue s) (r_gens s) (r_delivered s))) by exact Hinv.
-    destruct (r_version s =? 0); injection Hstep as <- <-; [exact H1|].
-    apply (rinv_start s0 _ H1).
+    destruct (r_version s =? 0) eqn:E0; injection Hstep as <- <-.
+    + (* not started yet: only the position changes *)
+      unfold rinv. cbn [r_version r_queue r_gens r_delivered r_call r_offset].
+      split; [exact Hv|]. split; [exact HQ|]. split; [exact HG|]. split; [exact HD|]. split; [exact HC|].
+      split; [exact HK|]. intros Hn. exfalso. lia.
+    + pose proof (rinv_start s0 s o Hinv Ec) as Hst. unfold at_offset in Hst. rewrite Ec in Hst. exact Hst.
   - (* LGen *)
     destruct (find_gen v (r_gens s)) as [g|] eqn:Ef; [|discriminate].
     destruct (gen_step run cfg g ev) as [[g' outs]|] eqn:Es; [|discriminate].
@@ -157,12 +201,13 @@ Proof.
     injection Hstep as <- <-.
     pose proof (find_gen_in _ _ _ Ef) as Hin.
     pose proof (proj1 (Forall_forall _ _) HG _ Hin) as Hvr. cbn [fst] in Hvr.
-    unfold rinv. cbn [r_version r_queue r_gens r_delivered].
+    unfold rinv. cbn [r_version r_queue r_gens r_delivered r_call r_offset].
     split; [exact Hv|]. split.
     { apply Forall_app. split; [exact HQ|]. apply Forall_forall. intros it Hit.
       apply in_map_iff in Hit as (o & <- & _). cbn [fst]. lia. }
     split; [apply (set_gen_keys v _ _ (fun x => 1 <= x <= r_version s)); exact HG|].
     split; [intros H0; exfalso; lia|].
+    split; [|split; [exact HK|exact HO]].
     intros Hn. destruct (HC Hn) as (g0 & Hf & Hg).
     destruct (Z.eq_dec v (r_version s)) as [Evv|Evv].
     + subst v. rewrite Ef in Hf. injection Hf as <-.
@@ -193,7 +238,7 @@ Qed.
 Theorem delivery_exact s s0 :
   reach s s0 -> exists a rest, mm (from a log) = r_delivered s ++ rest.
 Proof.
-  intros Hr. destruct (reach_inv s s0 Hr) as (Hv & HQ & HG & HD & HC).
+  intros Hr. destruct (reach_inv s s0 Hr) as (Hv & HQ & HG & HD & HC & _).
   destruct (Z.eq_dec (r_version s) 0) as [E0|E0].
   - rewrite (proj1 (HD E0)). exists 0, (mm (from 0 log)). reflexivity.
   - destruct (HC E0) as (g & _ & (a & _ & Hal & HE & _)).
@@ -208,7 +253,7 @@ Qed.
 Theorem delivery_from_start s s0 :
   reach s s0 -> r_version s <> 0 -> 0 <= s0 -> exists rest, mm (from s0 log) = r_delivered s ++ rest.
 Proof.
-  intros Hr Hn H0. destruct (reach_inv s s0 Hr) as (Hv & HQ & HG & HD & HC).
+  intros Hr Hn H0. destruct (reach_inv s s0 Hr) as (Hv & HQ & HG & HD & HC & _).
   destruct (HC Hn) as (g & _ & (a & Hs0 & Hal & HE & _)).
   rewrite <- (Hs0 H0).
   destruct (between_prefix_from 0 log a (g_offset g) log_sorted Hal) as [rest Hrest].
@@ -224,9 +269,118 @@ Proof.
   intros Hr Hn Ho Hs.
   pose proof (reach_step s s0 (LSetOffset o) s' ret Hr I Hs) as Hr'.
   cbn [next_start r_step] in Hr', Hs.
+  destruct (r_call s); [discriminate|].
   replace (o =? r_offset s) with false in * by lia.
   replace (r_version s =? 0) with false in * by lia.
   injection Hs as <- <-. split; [exact Hr'|]. split; reflexivity.
+Qed.
+
+(* ---------------------------------------------------------------- Reader.offset is the position *)
+Lemma from_from a p l : a <= p -> from p (from a l) = from p l.
+Proof.
+  intros H. unfold from. induction l as [|x t IH]; [reflexivity|]. cbn [filter].
+  destruct (a <=? r_off x) eqn:E1; cbn [filter]; destruct (p <=? r_off x) eqn:E2; try lia; rewrite IH; reflexivity.
+Qed.
+
+Lemma from_increasing a : forall l lo, increasing lo l -> increasing lo (from a l).
+Proof.
+  induction l as [|x t IH]; intros lo H; [exact I|]. destruct H as [H1 H2]. unfold from in *. cbn [filter].
+  destruct (a <=? r_off x).
+  - split; [exact H1|apply IH, H2].
+  - apply IH. clear -H1 H2. destruct t as [|y u]; [exact I|]. destruct H2 as [G1 G2]. split; [lia|exact G2].
+Qed.
+
+Lemma increasing_lb_all : forall l lo r, increasing lo l -> In r l -> lo <= r_off r.
+Proof.
+  induction l as [|x t IH]; intros lo r H Hr; [destruct Hr|]. destruct H as [H1 H2].
+  destruct Hr as [->|Hr]; [exact H1|]. specialize (IH _ r H2 Hr). lia.
+Qed.
+
+(* a list with increasing offsets, cut after its element x: what is at or after r_off x + 1 is the second part *)
+Lemma from_after_last : forall l1 lo x l2,
+  increasing lo ((l1 ++ [x]) ++ l2) -> from (r_off x + 1) ((l1 ++ [x]) ++ l2) = l2.
+Proof.
+  induction l1 as [|y t IH]; intros lo x l2 H.
+  - cbn [app] in *. destruct H as [H1 H2]. unfold from. cbn [filter].
+    replace (r_off x + 1 <=? r_off x) with false by lia.
+    clear H1. induction l2 as [|z u IHu]; [reflexivity|]. destruct H2 as [G1 G2]. cbn [filter].
+    replace (r_off x + 1 <=? r_off z) with true by lia. f_equal. apply IHu.
+    destruct u as [|w u']; [exact I|]. destruct G2 as [K1 K2]. split; [lia|exact K2].
+  - cbn [app] in *. destruct H as [H1 H2]. unfold from. cbn [filter].
+    assert (Hx : r_off y < r_off x).
+    { pose proof (increasing_lb_all _ _ x H2 ltac:(rewrite <- app_assoc; apply in_or_app; right; left; reflexivity)). lia. }
+    replace (r_off x + 1 <=? r_off y) with false by lia. apply (IH _ x l2 H2).
+Qed.
+
+Lemma mm_last ds g l : mm l = ds ++ [g] -> exists l1 x, l = l1 ++ [x] /\ mm l1 = ds /\ g_off g = r_off x.
+Proof.
+  intros H. unfold mm in H. apply map_eq_app in H as (l1 & l2 & -> & H1 & H2).
+  destruct l2 as [|x [|y u]]; try discriminate. cbn [map] in H2. injection H2 as H2.
+  exists l1, x. split; [reflexivity|]. split; [exact H1|]. rewrite <- H2. reflexivity.
+Qed.
+
+Lemma snoc_case {A} (ds : list A) : ds = [] \/ exists l g, ds = l ++ [g].
+Proof. induction ds as [|g l _] using rev_ind; [left; reflexivity|right; exists l, g; reflexivity]. Qed.
+
+(* what FetchMessage returned since the last (re)start, followed by the stored records at or
+   after Reader.offset, is the stored sequence from the start position: Reader.offset is exactly
+   the position of the next message *)
+Theorem offset_is_position s s0 :
+  reach s s0 -> r_version s <> 0 -> (0 <= s0 \/ r_delivered s <> []) ->
+  exists a, (0 <= s0 -> a = s0) /\ mm (from a log) = r_delivered s ++ mm (from (r_offset s) log).
+Proof.
+  intros Hr Hn Hpos. destruct (reach_inv s s0 Hr) as (Hv & HQ & HG & HD & HC & HK & HO).
+  destruct (HC Hn) as (g & _ & (a & Hs0 & Hal & HE & _)). specialize (HO Hn).
+  exists a. split; [exact Hs0|].
+  destruct (between_prefix_from 0 log a (g_offset g) log_sorted Hal) as [rest Hrest].
+  assert (Hall : mm (from a log) = r_delivered s ++ (cur_msgs (r_version s) (r_queue s) ++ mm rest)).
+  { rewrite app_assoc, HE, Hrest. unfold mm. apply map_app. }
+  destruct (snoc_case (r_delivered s)) as [Ed|(l & d0 & Ed)]; rewrite Ed in *.
+  - (* nothing returned yet: the start position *)
+    cbn [app]. unfold pos_after in HO. cbn [fold_left] in HO. rewrite HO.
+    destruct Hpos as [H0|H0]; [|contradiction]. rewrite (Hs0 H0). reflexivity.
+  - rewrite pos_after_snoc in HO.
+    unfold mm in Hall. apply map_eq_app in Hall as (l1 & l2 & Hl & H1 & H2).
+    destruct (mm_last l d0 l1 H1) as (l1' & x & -> & Hm & Hx).
+    assert (Hge : a <= r_off x + 1).
+    { assert (Hin : In x (from a log)) by (rewrite Hl; apply in_or_app; left; apply in_or_app; right; left; reflexivity).
+      unfold from in Hin. apply filter_In in Hin as [_ Hge]. lia. }
+    assert (Hl2 : from (r_offset s) log = l2).
+    { rewrite HO, Hx, <- (from_from a (r_off x + 1) log Hge), Hl.
+      apply (from_after_last l1' 0 x l2). rewrite <- Hl. apply from_increasing, log_sorted. }
+    rewrite Hl2, Hl, <- H1. unfold mm. apply map_app.
+Qed.
+
+
+(* SetOffset(o) with o = Reader.offset changes nothing, and rightly so: whatever the current
+   generation returns from then on is the stored records at or after o, in order (s1: any later
+   state of the same generation) *)
+Theorem setoffset_same_next s s0 o s1 later :
+  reach s s0 -> r_version s <> 0 -> r_call s = None -> (0 <= s0 \/ r_delivered s <> []) -> o = r_offset s ->
+  reach s1 s0 -> r_version s1 <> 0 -> r_delivered s1 = r_delivered s ++ later ->
+  r_step run cfg s (LSetOffset o) = RState s None
+  /\ exists rest, mm (from o log) = later ++ rest.
+Proof.
+  intros Hr Hn Hcall Hpos Ho Hr1 Hn1 Hd1. split.
+  { cbn [r_step]. rewrite Hcall. replace (o =? r_offset s) with true by lia. reflexivity. }
+  destruct (reach_inv s s0 Hr) as (_ & _ & _ & _ & _ & _ & HO). specialize (HO Hn).
+  assert (Hpos1 : 0 <= s0 \/ r_delivered s1 <> []).
+  { destruct Hpos as [H|H]; [left; exact H|right]. rewrite Hd1. intros E. apply app_eq_nil in E as [E _]. contradiction. }
+  destruct (offset_is_position s1 s0 Hr1 Hn1 Hpos1) as (a1 & Ha1 & Hm1).
+  rewrite Hd1 in Hm1. rewrite Ho, HO.
+  destruct (snoc_case (r_delivered s)) as [Ed|(l & d0 & Ed)]; rewrite Ed in *.
+  - cbn [app] in Hm1. unfold pos_after. cbn [fold_left].
+    destruct Hpos as [H0|H0]; [|contradiction]. rewrite <- (Ha1 H0). eexists. exact Hm1.
+  - rewrite pos_after_snoc. rewrite <- app_assoc in Hm1.
+    unfold mm in Hm1. apply map_eq_app in Hm1 as (l1 & l23 & Hl & H1 & H23).
+    destruct (mm_last l d0 l1 H1) as (l1' & x & -> & Hm & Hx).
+    assert (Hge : a1 <= r_off x + 1).
+    { assert (Hin : In x (from a1 log)) by (rewrite Hl; apply in_or_app; left; apply in_or_app; right; left; reflexivity).
+      unfold from in Hin. apply filter_In in Hin as [_ Hge]. lia. }
+    assert (Hf : from (g_off d0 + 1) log = l23).
+    { rewrite Hx, <- (from_from a1 (r_off x + 1) log Hge), Hl.
+      apply (from_after_last l1' 0 x l23). rewrite <- Hl. apply from_increasing, log_sorted. }
+    rewrite Hf. eexists. unfold mm. exact H23.
 Qed.
 
 End LTS.
